@@ -150,6 +150,11 @@ func implCLI(env *Env, op Op) Result {
 	}
 	sb := mkSandbox(env)
 	defer os.RemoveAll(sb)
+	if variant == "dotparent" {
+		// the checkout lives below directories whose names start with a dot or carry an extension (a CI cache, a
+		// dot-directory in a home): where a tree is kept says nothing about its files
+		sb = filepath.Join(sb, ".ci-cache", "work.ra", "checkout")
+	}
 	_ = os.MkdirAll(filepath.Join(sb, "regex-assembly"), 0o755)
 	_ = os.MkdirAll(filepath.Join(sb, "tests", "regression", "tests"), 0o755)
 	store := sb + "-store"
@@ -276,7 +281,7 @@ func genCliTreeCases(r *rand.Rand, n int) []Case {
 		if i%3 == 1 {
 			// the same tree with every file behind a symbolic link (a sandboxed checkout), and with read-only files: what a
 			// command does to a file does not depend on how the file is stored
-			v := []string{"@symlink", "@readonly"}[(i/3)%2]
+			v := []string{"@symlink", "@readonly", "@dotparent"}[(i/3)%3]
 			for k := range ops {
 				ops[k] = Op{ops[k].Name + v, ops[k].Args}
 			}
